@@ -432,6 +432,14 @@ C15_ExportReplay_C ==
     /\ Post.stage = x.stage
     /\ View(Post) = View(x)
 
+(* Level-I frame conditions (drift, not a property): which part of the state an operation may touch *)
+D_FrameStorage_A == Acting /\ Has2 /\ E.op \in {"Update", "Resolve", "Unstage", "Export", "Replay", "Snapshot", "Refresh", "Reload", "ReloadUntil"}
+D_FrameStorage_C == Post.items = pre.items
+D_FrameMemory_A == Acting /\ Has2 /\ E.op \in {"Meld", "Copy"}
+D_FrameMemory_C ==
+    /\ Post.trees = pre.trees /\ Post.status = pre.status /\ Post.heads = pre.heads
+    /\ Post.staging = pre.staging /\ Post.stage = pre.stage /\ View(Post) = View(pre)
+
 (* C19 — identifiers are canonical (system level) *)
 C19_Canonical_A == Acting /\ HasObs(Post)
 C19_Canonical_C ==
@@ -458,7 +466,7 @@ Names == <<"C08_Returns", "C05_WinnerRule", "C05_TreeFromBlocks", "C02_AppliedCo
            "C06_ArrayView", "C16_Reconstructs", "C16_StoredEqualsSubmitted", "C07_Resolve",
            "C09_CommitWriteOrder", "C09_CrashAtomic", "C09_FailedCommit", "C10_ErrorOrIntact",
            "C10_NoAlteredContent", "C12_NoDocChange", "C14_Travel", "C14_Retrievable", "C15_CommitCleans",
-           "C15_Guards", "C15_Unstage", "C15_ExportReplay", "C19_Canonical", "C19_LeafOrderTotal", "C09_RetryDurable">>
+           "C15_Guards", "C15_Unstage", "C15_ExportReplay", "C19_Canonical", "C19_LeafOrderTotal", "C09_RetryDurable", "D_FrameStorage", "D_FrameMemory">>
 
 AllChecks ==
     /\ Chk(1, Names[1], C08_Returns_A, C08_Returns_C)
@@ -500,6 +508,8 @@ AllChecks ==
     /\ Chk(37, Names[37], C19_Canonical_A, C19_Canonical_C)
     /\ Chk(38, Names[38], C19_LeafOrderTotal_A, C19_LeafOrderTotal_C)
     /\ Chk(39, Names[39], C09_RetryDurable_A, C09_RetryDurable_C)
+    /\ Chk(40, Names[40], D_FrameStorage_A, D_FrameStorage_C)
+    /\ Chk(41, Names[41], D_FrameMemory_A, D_FrameMemory_C)
 
 \* the same predicates as individually named invariants (MeldaTraceStrict.cfg)
 C08_Returns == C08_Returns_A => C08_Returns_C
